@@ -56,3 +56,198 @@ class Wiring(Contract):
 
 
 CONTRACTS = [Wiring(s) for s in PAIRS]
+
+
+# ---------------------------------------------------------------------------------------------------------------------
+# the energy table reader: EnergyReader._get_column_names (legend scan) and the wiring of load_energy / load_single_energy_column
+# ---------------------------------------------------------------------------------------------------------------------
+from pyvc.core import Vec, Bool, Tup, StrSort, Unsupported, conc
+from pyvc.ops import vget, to_num
+from pyvc.interp import LoopSpec, LibCallable
+from pyvc.lib_py import starts_pred, str_z
+
+HASH, AT, LEG, DATA = 0, 1, 2, 3      # kinds of lines: '#' comment, other '@' line, '@ s<i> legend "<name>"', data row
+KIND = z3.Function("line_kind", z3.IntSort(), z3.IntSort())
+SER = z3.Function("legend_series", z3.IntSort(), z3.IntSort())
+LINE = z3.Function("str_line", z3.IntSort(), StrSort)
+NAME = z3.Function("str_legend_name", z3.IntSort(), StrSort)
+PRE = z3.Function("str_before_quote", z3.IntSort(), StrSort)
+POSTQ = z3.Function("str_after_quote", z3.IntSort(), StrSort)
+CNT = z3.Function("legends_before", z3.IntSort(), z3.IntSort())
+
+
+def line_facts(k):
+    """what "a file as GROMACS writes it" means for line k (ASSUMED: the reading of the text into line kinds; the string predicates
+    are uninterpreted, these facts tie them to the kind / series / name of the line): a legend line starts with `@ s<i> legend` for
+    exactly its own series i in 0..9 and with no other of the ten prefixes; '@' and '#' prefixes follow the kind"""
+    z = LINE(k)
+    fs = [z3.And(KIND(k) >= 0, KIND(k) <= 3), z3.Implies(KIND(k) == LEG, z3.And(SER(k) >= 0, SER(k) <= 9)),
+          starts_pred("@")(z) == z3.Or(KIND(k) == AT, KIND(k) == LEG), starts_pred("#")(z) == (KIND(k) == HASH)]
+    for i in range(10):
+        fs.append(starts_pred(f"@ s{i} legend")(z) == z3.And(KIND(k) == LEG, SER(k) == i))
+    return fs
+
+
+def unfold_cnt(ctx, k):
+    ctx.assume(CNT(0) == 0)
+    ctx.assume(z3.Implies(k >= 0, CNT(k + 1) == CNT(k) + z3.If(KIND(k) == LEG, 1, 0)))
+    ctx.assume(z3.Implies(k >= 0, CNT(k) >= 0))
+
+
+class ColumnNames(Contract):
+    target = f"{REL}::EnergyReader._get_column_names"
+    property_ids = ("C20",)
+    expected = ("post:one-column-per-legend-line-of-the-header", "post:legend-names-in-file-order")
+
+    def setup(self, V, variant):
+        ctx = V.ctx
+        n = V.int("n_lines", lo=0)
+
+        def line(k):
+            kz = zint(k)
+            toks = Vec(3, kind="list", elem="str", items=[Str(z=PRE(kz)), Str(z=NAME(kz)), Str(z=POSTQ(kz))])
+            return Str(z=LINE(kz), meta={"tokens": toks, "sep": '"'})
+        lines = Vec(n, line, kind="tuple", elem="str", facts=lambda k: line_facts(zint(k)))
+        path = Str(z=z3.Const("str_energy_path", StrSort))
+        ctx.text_files = {str_z(path).sexpr(): lines}
+        cls = V.interp.loader.find_class(REL, "EnergyReader")
+        obj = Obj(cls, {"path_energy": path})
+        V.env.update(n=n, obj=obj)
+        ctx.c20 = V.env
+        return [obj], {}
+
+    def _inv(self, interp, frame, i):
+        ctx = interp.ctx
+        R = frame.lookup("result")
+        unfold_cnt(ctx, i)
+        ctx.c20_exit = i        # the last index the invariant is instantiated at is where the loop stopped (break or exhaustion)
+        q = z3.Int(ctx.fresh("q"))
+        out = [("length-is-1-plus-legend-lines-so-far", zint(R.length) == 1 + CNT(i)),
+               ("no-data-line-passed", z3.ForAll([q], z3.Implies(z3.And(q >= 0, q < i), KIND(q) != DATA), patterns=[KIND(q)]))]
+        out.append(("earlier-legends-have-smaller-positions", z3.ForAll([q], z3.Implies(z3.And(q >= 0, q < i, KIND(q) == LEG), z3.And(CNT(q) >= 0, CNT(q) < CNT(i))),
+                                                                     patterns=[CNT(q)])))
+        first = vget(ctx, R, 0)
+        out.append(("first-column-is-time", str_z(first) == str_z(Str(py="Time [ps]"))))
+        ctx.binder_stack.append([])
+        try:
+            rq = str_z(vget(ctx, R, 1 + CNT(q)))
+        finally:
+            ctx.binder_stack.pop()
+        out.append(("names-in-file-order", z3.ForAll([q], z3.Implies(z3.And(q >= 0, q < i, KIND(q) == LEG), rq == NAME(q)), patterns=[NAME(q)])))
+        return out
+
+    @property
+    def loops(self):
+        return {0: LoopSpec(self._inv, elem={"result": "str"})}
+
+    def post(self, V, variant, env, outcome):
+        ctx = V.ctx
+        if outcome[0] != "return":
+            V.oblige(f"post:no-exception[{outcome[1]}]", False)
+            return
+        R = outcome[1]
+        n = env["n"]
+        d, q = z3.Int("d20"), z3.Int("q20")
+        # d = number of header lines read = index of the first data line (or n): characterised, not computed
+        unfold_cnt(ctx, d)
+        header = z3.And(d >= 0, d <= n, z3.Or(d == n, KIND(d) == DATA))
+        V.oblige("post:first-column-is-time", str_z(vget(ctx, R, 0)) == str_z(Str(py="Time [ps]")))
+        files = ctx.__dict__.get("opened_files", [])
+        V.oblige("post:file-opened-once-and-closed", z3.BoolVal(len(files) == 1 and files[0].closed))
+        # the loop's exit state gives the two facts for the d it stopped at; stated for that d through the invariant instance
+        st = getattr(ctx, "c20_exit", None)
+        if st is None:
+            V.oblige("post:exit-state-recorded", False)
+            return
+        dd = st
+        unfold_cnt(ctx, dd)
+        V.oblige("post:scan-stops-at-the-first-data-line-or-the-end", z3.And(dd >= 0, dd <= n, z3.Or(dd == n, KIND(dd) == DATA)))
+        V.oblige("post:one-column-per-legend-line-of-the-header", zint(R.length) == 1 + CNT(dd))
+        V.oblige("post:legend-names-in-file-order", z3.Implies(z3.And(q >= 0, q < dd, KIND(q) == LEG), str_z(vget(ctx, R, 1 + CNT(q))) == NAME(q)))
+
+
+CONTRACTS = CONTRACTS + [ColumnNames()]
+
+
+class LoadEnergy(Contract):
+    """wiring of the table reader: which file is parsed with which options (pandas itself is assumed)"""
+    target = f"{REL}::EnergyReader.load_energy"
+    property_ids = ("C20",)
+    variants = ("xvg", "csv", "txt")
+    expected = ("post:xvg-options", "post:csv-options", "post:unknown-extension-rejected")
+
+    def setup(self, V, variant):
+        cls = V.interp.loader.find_class(REL, "EnergyReader")
+        path = Str(py=f"run/energies.{variant}")
+        names = Opaque("value-of-_get_column_names")
+        obj = Obj(cls, {"path_energy": path})
+        obj.fields["_get_column_names"] = LibCallable("EnergyReader._get_column_names[contract above]", lambda i, a, k: names)
+        V.env.update(path=path, names=names)
+        return [obj], {}
+
+    def post(self, V, variant, env, outcome):
+        calls = V.ctx.__dict__.get("read_csv_calls", [])
+        if variant == "txt":
+            V.oblige("post:unknown-extension-rejected", z3.BoolVal(outcome[0] == "raise" and outcome[1] == "ValueError" and not calls))
+            return
+        if outcome[0] != "return":
+            V.oblige(f"post:no-exception[{outcome[1]}]", False)
+            return
+        ok = len(calls) == 1 and outcome[1] is calls[0]
+        V.oblige("post:the-table-returned-is-the-one-parsed-from-the-file", z3.BoolVal(ok))
+        if not ok:
+            return
+        _, args, kw = calls[0].source
+        lit = lambda v: v.py if isinstance(v, Str) else (conc(v.z) if isinstance(v, Num) else ("None" if v is NONE else v))
+        got = {k: lit(v) for k, v in kw.items()}
+        path_ok = len(args) == 1 and isinstance(args[0], Str) and args[0].py == env["path"].py
+        if variant == "xvg":
+            want = {"sep": r"\s+", "comment": "@", "skiprows": 13, "header": "None", "names": env["names"], "float_precision": "round_trip"}
+            V.oblige("post:xvg-options[13 rows skipped, '@' lines are comments, no header row, names = legend scan, exact float parser]",
+                     z3.BoolVal(path_ok and got == want))
+        else:
+            want = {"index_col": 0, "float_precision": "round_trip"}
+            V.oblige("post:csv-options[first column is the index, exact float parser]", z3.BoolVal(path_ok and got == want))
+
+
+class SingleColumn(Contract):
+    target = f"{REL}::EnergyReader.load_single_energy_column"
+    property_ids = ("C20",)
+    expected = ("post:column-of-the-loaded-table-in-row-order",)
+
+    def setup(self, V, variant):
+        from pyvc.lib_io import DataFrame
+        cls = V.interp.loader.find_class(REL, "EnergyReader")
+        table = DataFrame(("load_energy",))
+        obj = Obj(cls, {"path_energy": Str(py="run/energies.xvg")})
+        obj.fields["load_energy"] = LibCallable("EnergyReader.load_energy[contract above]", lambda i, a, k: table)
+        col = Str(z=z3.Const("str_energy_type", StrSort))
+        V.env.update(table=table, col=col)
+        return [obj, col], {}
+
+    def post(self, V, variant, env, outcome):
+        if outcome[0] != "return":
+            V.oblige(f"post:no-exception[{outcome[1]}]", False)
+            return
+        r = outcome[1]
+        ok = isinstance(r, Opaque) and r.tag == "column-values" and r.payload[0] is env["table"] and r.payload[1] is env["col"]
+        V.oblige("post:column-of-the-loaded-table-in-row-order[to_numpy of table[energy_type], nothing in between]", z3.BoolVal(ok))
+
+
+CONTRACTS = CONTRACTS + [LoadEnergy(), SingleColumn()]
+_old_lemmas = globals().get("lemmas")
+
+
+def lemmas():
+    """pandas' reading of (skiprows=13, comment='@') over a GROMACS file -- h lines '#', then a lines '@', then data -- returns
+    exactly the data lines in file order iff h <= 13 <= h + a  (ASSUMED semantics: the first 13 physical lines are dropped, then
+    every line starting with the comment character is dropped, every remaining line is one row)"""
+    h, a, n, i = z3.Ints("h20 a20 n20 i20")
+    kind = lambda x: z3.If(x < h, HASH, z3.If(x < h + a, AT, DATA))
+    kept = lambda x: z3.And(x >= 13, x < n, kind(x) != AT)          # line x becomes a row (or breaks the parse if it is a '#' line)
+    base = [h >= 0, a >= 0, n >= h + a, i >= 0, i < n]
+    out = list(_old_lemmas()) if _old_lemmas else []
+    out.append(("lemma:skiprows-13-keeps-exactly-the-data-lines", base + [h <= 13, h + a >= 13], kept(i) == (kind(i) == DATA), ("C20",)))
+    out.append(("mustfail:more-than-13-hash-lines-leak-into-the-table", base + [h + a >= 13], kept(i) == (kind(i) == DATA), ("C20",)))
+    out.append(("mustfail:fewer-than-13-header-lines-lose-data-rows", base + [h <= 13], kept(i) == (kind(i) == DATA), ("C20",)))
+    return out
